@@ -1,9 +1,235 @@
 ------------------------------ MODULE CmdList ------------------------------
-(* placeholder: semantics of the list commands (to be written) *)
+(***************************************************************************)
+(* LPUSH LPUSHX RPUSH RPUSHX LPOP RPOP LLEN LRANGE LINDEX LSET LTRIM LREM  *)
+(* LMOVE   -   internal/modules/list/commands.go                           *)
+(*                                                                         *)
+(* A list value is VList(l), l a TLA+ sequence of byte strings, head       *)
+(* first.  Elements are never re-typed: the bytes pushed are the bytes     *)
+(* kept.  The reference is property C15 (a list is a sequence; zero-based  *)
+(* indices, negative ones count from the tail, out-of-range ones are       *)
+(* clamped); where neither the property nor docs/docs/commands/list/*.mdx  *)
+(* speak, the behaviour of the code is recorded ("as-code"):               *)
+(*  - an empty list is a value of its own (LPOP/RPOP/LREM/LMOVE of the     *)
+(*    last element leave an empty list behind; TYPE says "list", LLEN 0),  *)
+(*    but LTRIM to an empty range deletes the key;                         *)
+(*  - LPUSH k a b c puts the block a b c in front of the list in argument  *)
+(*    order (not one element at a time);                                   *)
+(*  - LPUSHX / RPUSHX on a missing key are errors; LSET on a missing key   *)
+(*    is an error; LMOVE needs both keys to exist and replies OK;          *)
+(*  - LPOP/RPOP count: the absolute value is used, count 0 on a non-empty  *)
+(*    list replies an empty array, an empty list always replies nil;       *)
+(*  - the order of checks (existence, type, numeric arguments) decides     *)
+(*    between nil / 0 / OK and an error when several apply;                *)
+(*  - every write goes through setValues: a live key keeps its deadline.   *)
+(***************************************************************************)
 EXTENDS CmdBase
 
-ListOps == {}
-ExecList(C, a, g) == Skip(C)
+ListOps == {"LPUSH", "LPUSHX", "RPUSH", "RPUSHX", "LPOP", "RPOP", "LLEN", "LRANGE", "LINDEX", "LSET",
+            "LTRIM", "LREM", "LMOVE"}
+
+----------------------------------------------------------------------------
+\* vocabulary
+
+LIsList(C, k) == Live(C, k) /\ ValOf(C, k).k = "list"
+LOf(C, k)     == ValOf(C, k).l
+
+\* the bytes of the tokens a[from], a[from+1], ... in order
+LElems(a, from) == IF Len(a) < from THEN <<>> ELSE [i \in 1..(Len(a) - from + 1) |-> TokBytes(a[i + from - 1])]
+
+LBulks(l) == RArr(IF l = <<>> THEN <<>> ELSE [i \in 1..Len(l) |-> RStr(l[i])])
+
+LRev(l) == IF l = <<>> THEN <<>> ELSE [i \in 1..Len(l) |-> l[Len(l) + 1 - i]]
+
+\* strconv.Atoi on the wire form of a token: "ok", "bad" (error reply) or "skip" (more digits than
+\* the bounded integers of the model follow)
+LNumKind(t) ==
+    LET b == TokBytes(t) IN
+    IF IsParseInt(b) THEN "ok"
+    ELSE IF b # <<>> /\ NumBody(b) # <<>> /\ AllDigits(NumBody(b)) THEN "skip"
+    ELSE "bad"
+LNum(t) == ParseIntVal(TokBytes(t))
+
+\* LEFT / RIGHT in any letter case
+LLower(b) == [i \in DOMAIN b |-> IF b[i] >= 65 /\ b[i] <= 90 THEN b[i] + 32 ELSE b[i]]
+LWhere(t) == LET w == LLower(TokBytes(t)) IN
+             IF w = <<108, 101, 102, 116>> THEN "left"
+             ELSE IF w = <<114, 105, 103, 104, 116>> THEN "right"
+             ELSE ""
+
+\* the inclusive index range start..end of a list of length n, after counting negative indices
+\* from the tail and clamping: <<lo, hi>> zero-based, empty when lo > hi
+LLo(n, s) == IF s < 0 THEN Max2(n + s, 0) ELSE s
+LHi(n, e) == Min2(IF e < 0 THEN n + e ELSE e, n - 1)
+LSlice(l, s, e) == LET lo == LLo(Len(l), s)   hi == LHi(Len(l), e) IN
+                   IF lo > hi THEN <<>> ELSE SubSeq(l, lo + 1, hi + 1)
+
+\* l without its first c elements equal to v (all of them when c < 0)
+RECURSIVE LDropFirst(_, _, _)
+LDropFirst(l, v, c) ==
+    IF l = <<>> \/ c = 0 THEN l
+    ELSE IF l[1] = v THEN LDropFirst(Tail(l), v, IF c < 0 THEN c ELSE c - 1)
+    ELSE <<l[1]>> \o LDropFirst(Tail(l), v, c)
+
+----------------------------------------------------------------------------
+\* LPUSH / LPUSHX / RPUSH / RPUSHX key element [element ...]
+
+XLPush(C, a, left, onlyIfExists) ==
+    IF Len(a) < 3 THEN Fail(C)
+    ELSE LET k   == a[2].s
+             new == LElems(a, 3)
+         IN IF ~Live(C, k)
+            THEN (IF onlyIfExists THEN Fail(C)                       \* as-code: an error, not 0
+                  ELSE Res(Write(C, k, VList(new)), RInt(Len(new))))
+            ELSE IF ValOf(C, k).k # "list" THEN Fail(C)
+            ELSE LET l == IF left THEN new \o LOf(C, k) ELSE LOf(C, k) \o new    \* as-code: block order kept
+                 IN Res(Write(C, k, VList(l)), RInt(Len(l)))
+
+----------------------------------------------------------------------------
+\* LPOP / RPOP key [count]
+
+XLPop(C, a, left) ==
+    IF Len(a) < 2 \/ Len(a) > 3 THEN Fail(C)
+    ELSE LET k == a[2].s IN
+         IF ~Live(C, k) THEN Res(C.S, RNil)                          \* before the count is looked at
+         ELSE IF ValOf(C, k).k # "list" THEN Fail(C)
+         ELSE IF Len(a) = 3 /\ LNumKind(a[3]) = "skip" THEN Skip(C)
+         ELSE IF Len(a) = 3 /\ LNumKind(a[3]) = "bad" THEN Fail(C)
+         ELSE LET l == LOf(C, k)   n == Len(l) IN
+              IF n = 0 THEN Res(C.S, RNil)                           \* as-code: also with a count
+              ELSE IF Len(a) = 2
+                   THEN Res(Write(C, k, VList(IF left THEN Tail(l) ELSE SubSeq(l, 1, n - 1))),
+                            RStr(IF left THEN l[1] ELSE l[n]))
+              ELSE LET c == Min2(Abs(LNum(a[3])), n)                 \* as-code: |count|
+                   IN Res(Write(C, k, VList(IF left THEN SubSeq(l, c + 1, n) ELSE SubSeq(l, 1, n - c))),
+                          LBulks(IF left THEN SubSeq(l, 1, c) ELSE LRev(SubSeq(l, n - c + 1, n))))
+
+----------------------------------------------------------------------------
+\* LLEN key
+
+XLLen(C, a) ==
+    IF Len(a) # 2 THEN Fail(C)
+    ELSE IF ~Live(C, a[2].s) THEN Res(C.S, RInt(0))
+    ELSE IF ValOf(C, a[2].s).k # "list" THEN Fail(C)
+    ELSE Res(C.S, RInt(Len(LOf(C, a[2].s))))
+
+----------------------------------------------------------------------------
+\* LINDEX key index
+
+XLIndex(C, a) ==
+    IF Len(a) # 3 THEN Fail(C)
+    ELSE LET k == a[2].s IN
+         IF ~Live(C, k) THEN Res(C.S, RNil)                          \* before the index is looked at
+         ELSE IF ValOf(C, k).k # "list" THEN Fail(C)
+         ELSE IF LNumKind(a[3]) = "skip" THEN Skip(C)
+         ELSE IF LNumKind(a[3]) = "bad" THEN Fail(C)
+         ELSE LET l == LOf(C, k)
+                  i == IF LNum(a[3]) < 0 THEN Len(l) + LNum(a[3]) ELSE LNum(a[3])
+              IN IF i < 0 \/ i >= Len(l) THEN Res(C.S, RNil) ELSE Res(C.S, RStr(l[i + 1]))
+
+----------------------------------------------------------------------------
+\* LRANGE key start end
+
+XLRange(C, a) ==
+    IF Len(a) # 4 THEN Fail(C)
+    ELSE LET k == a[2].s IN
+         IF ~Live(C, k) THEN Res(C.S, LBulks(<<>>))                  \* before the indices are looked at
+         ELSE IF ValOf(C, k).k # "list" THEN Fail(C)
+         ELSE IF LNumKind(a[3]) = "skip" \/ (LNumKind(a[3]) = "ok" /\ LNumKind(a[4]) = "skip") THEN Skip(C)
+         ELSE IF LNumKind(a[3]) = "bad" \/ LNumKind(a[4]) = "bad" THEN Fail(C)
+         ELSE Res(C.S, LBulks(LSlice(LOf(C, k), LNum(a[3]), LNum(a[4]))))
+
+----------------------------------------------------------------------------
+\* LSET key index element
+
+XLSet(C, a) ==
+    IF Len(a) # 4 THEN Fail(C)
+    ELSE LET k == a[2].s IN
+         IF ~Live(C, k) THEN Fail(C)                                 \* as-code: no such key is an error
+         ELSE IF LNumKind(a[3]) = "skip" THEN Skip(C)
+         ELSE IF LNumKind(a[3]) = "bad" THEN Fail(C)
+         ELSE IF ValOf(C, k).k # "list" THEN Fail(C)
+         ELSE LET l == LOf(C, k)
+                  i == IF LNum(a[3]) < 0 THEN Len(l) + LNum(a[3]) ELSE LNum(a[3])
+              IN IF i < 0 \/ i >= Len(l) THEN Fail(C)
+                 ELSE Res(Write(C, k, VList([l EXCEPT ![i + 1] = TokBytes(a[4])])), ROk)
+
+----------------------------------------------------------------------------
+\* LTRIM key start end
+
+XLTrim(C, a) ==
+    IF Len(a) # 4 THEN Fail(C)
+    ELSE LET k == a[2].s IN
+         IF ~Live(C, k) THEN Res(C.S, ROk)                           \* before the indices are looked at
+         ELSE IF LNumKind(a[3]) = "skip" \/ (LNumKind(a[3]) = "ok" /\ LNumKind(a[4]) = "skip") THEN Skip(C)
+         ELSE IF LNumKind(a[3]) = "bad" \/ LNumKind(a[4]) = "bad" THEN Fail(C)
+         ELSE IF ValOf(C, k).k # "list" THEN Fail(C)
+         ELSE LET kept == LSlice(LOf(C, k), LNum(a[3]), LNum(a[4])) IN
+              IF kept = <<>> THEN Res(Del(C.S, C.db, k), ROk)        \* as-code: nothing kept, key removed
+              ELSE Res(Write(C, k, VList(kept)), ROk)
+
+----------------------------------------------------------------------------
+\* LREM key count element : count > 0 from the head, count < 0 from the tail, 0 all
+
+XLRem(C, a) ==
+    IF Len(a) # 4 THEN Fail(C)
+    ELSE LET k == a[2].s IN
+         IF LNumKind(a[3]) = "skip" THEN Skip(C)
+         ELSE IF LNumKind(a[3]) = "bad" THEN Fail(C)                 \* even when the key is missing
+         ELSE IF ~Live(C, k) THEN Res(C.S, RInt(0))
+         ELSE IF ValOf(C, k).k # "list" THEN Fail(C)
+         ELSE LET l == LOf(C, k)
+                  c == LNum(a[3])
+                  v == TokBytes(a[4])
+                  r == IF c > 0 THEN LDropFirst(l, v, c)
+                       ELSE IF c < 0 THEN LRev(LDropFirst(LRev(l), v, -c))
+                       ELSE LDropFirst(l, v, -1)
+              IN Res(Write(C, k, VList(r)), RInt(Len(l) - Len(r)))
+
+----------------------------------------------------------------------------
+\* LMOVE source destination <LEFT | RIGHT> <LEFT | RIGHT>
+\* One element leaves one end of source and enters one end of destination.  With source =
+\* destination this is a rotation (or nothing, for LEFT LEFT / RIGHT RIGHT).
+\* as-code: both keys must exist; the reply is OK, not the element.  An empty source has no
+\* element to move: error.
+
+XLMove(C, a) ==
+    IF Len(a) # 5 THEN Fail(C)
+    ELSE LET s  == a[2].s
+             d  == a[3].s
+             wf == LWhere(a[4])
+             wt == LWhere(a[5])
+         IN IF wf = "" \/ wt = "" THEN Fail(C)
+            ELSE IF ~Live(C, s) \/ ~Live(C, d) THEN Fail(C)
+            ELSE IF ValOf(C, s).k # "list" \/ ValOf(C, d).k # "list" THEN Fail(C)
+            ELSE IF LOf(C, s) = <<>> THEN Fail(C)
+            ELSE LET sl == LOf(C, s)
+                     n  == Len(sl)
+                     e  == IF wf = "left" THEN sl[1] ELSE sl[n]
+                     s2 == IF wf = "left" THEN Tail(sl) ELSE SubSeq(sl, 1, n - 1)
+                     dl == IF s = d THEN s2 ELSE LOf(C, d)
+                     d2 == IF wt = "left" THEN <<e>> \o dl ELSE dl \o <<e>>
+                     S1 == SetVal(C.S, C.now, C.db, s, VList(s2))
+                 IN Res(SetVal(S1, C.now, C.db, d, VList(d2)), ROk)
+
+----------------------------------------------------------------------------
+
+ExecList(C, a, g) ==
+    LET op == a[1].s IN
+    CASE op = "LPUSH"  -> XLPush(C, a, TRUE, FALSE)
+      [] op = "LPUSHX" -> XLPush(C, a, TRUE, TRUE)
+      [] op = "RPUSH"  -> XLPush(C, a, FALSE, FALSE)
+      [] op = "RPUSHX" -> XLPush(C, a, FALSE, TRUE)
+      [] op = "LPOP"   -> XLPop(C, a, TRUE)
+      [] op = "RPOP"   -> XLPop(C, a, FALSE)
+      [] op = "LLEN"   -> XLLen(C, a)
+      [] op = "LINDEX" -> XLIndex(C, a)
+      [] op = "LRANGE" -> XLRange(C, a)
+      [] op = "LSET"   -> XLSet(C, a)
+      [] op = "LTRIM"  -> XLTrim(C, a)
+      [] op = "LREM"   -> XLRem(C, a)
+      [] op = "LMOVE"  -> XLMove(C, a)
+
+\* no open deviations: every defect found in this module was small enough to repair
 ListDevs(a) == {}
 
 =============================================================================
